@@ -224,6 +224,8 @@ impl Model for M {
             A::Solid(r, c) => pix = row_major(r).into_iter().map(|p| (p, *c)).collect(),
             A::Contig(r, len) => pix = row_major(r).into_iter().take(*len as usize).enumerate().map(|(i, p)| (p, i % 2 == 0)).collect(),
             A::Clear(c) => pix = row_major(&(0, 0, 64, 64)).into_iter().map(|p| (p, *c)).collect(),
+            // set_pixel is documented to panic for a point outside the display (whatever the two flags say)
+            A::Set(p, _) if !in_range(p) => model_panics = true,
             A::Set(p, c) => match c {
                 Some(c) => {
                     n.m.insert(*p, *c);
@@ -233,7 +235,7 @@ impl Model for M {
                 }
             },
         }
-        let mut why = "";
+        let mut why = if model_panics { "set_pixel outside the display" } else { "" };
         for (p, c) in &pix {
             if !in_range(p) {
                 if !n.oob {
@@ -304,6 +306,8 @@ fn alphabet(tier: Tier) -> Vec<A> {
     v.push(A::Contig((63, 0, 2, 2), 4));
     v.push(A::Set((5, 7), None));
     v.push(A::Set((63, 0), Some(true)));
+    v.push(A::Set((64, 5), Some(true)));
+    v.push(A::Set((3, -1), None));
     if tier.is_thorough() {
         v.push(A::Draw(vec![((0, 63), true), ((0, i32::MIN), true)]));
         v.push(A::Solid((-1, 5, 3, 1), true));
